@@ -1,14 +1,12 @@
 package eddsa
 
 import (
-	"errors"
-
 	"github.com/wollac/iota-crypto-demo/pkg/ed25519"
 	"github.com/wollac/iota-crypto-demo/pkg/slip10"
 )
 
-// ErrNotHardened is returned when the input led to an invalid private or public key.
-var ErrNotHardened = errors.New("only hardened derivation is supported")
+// ErrNotHardened is returned when a non-hardened derivation is requested; Ed25519 only supports hardened derivation.
+var ErrNotHardened = slip10.ErrNotHardened
 
 type ed25519Curve struct{}
 
@@ -56,6 +54,11 @@ func (s Seed) Public() slip10.Key {
 	return PublicKey(priv.Public().(ed25519.PublicKey))
 }
 
+// HardenedOnly reports that SLIP-10 only defines hardened derivation for Ed25519.
+func (Seed) HardenedOnly() bool {
+	return true
+}
+
 // Shift derives a new Seed from the provided bytes.
 func (Seed) Shift(buf []byte) (slip10.Key, error) {
 	if len(buf) != ed25519.SeedSize {
@@ -91,6 +94,11 @@ func (PublicKey) IsPrivate() bool {
 // Public returns a reference to itself.
 func (p PublicKey) Public() slip10.Key {
 	return p
+}
+
+// HardenedOnly reports that SLIP-10 only defines hardened derivation for Ed25519.
+func (PublicKey) HardenedOnly() bool {
+	return true
 }
 
 // Shift implements the Shift method of slip10.Key.
